@@ -363,6 +363,11 @@ func (c *ClientConn) Do(req *http.Request, handler func(res *http.Response, conn
 			return
 		}
 
+		if confTimeout > 0 {
+			// the deadline set while dialing was on the std connection,
+			// which the transfer to the poller has closed.
+			_ = c.conn.SetReadDeadline(deadline)
+		}
 		sendRequest()
 	}
 }
